@@ -948,3 +948,86 @@ async fn test_upload_part_copy() -> Result<()> {
 
     Ok(())
 }
+
+#[tokio::test]
+#[tracing::instrument]
+async fn test_upload_part_copy_range() -> Result<()> {
+    use aws_sdk_s3::error::ProvideErrorMetadata;
+
+    let _guard = serial().await;
+
+    let c = Client::new(config());
+    let bucket = format!("test-uploadpartcopy-range-{}", Uuid::new_v4());
+    let bucket = bucket.as_str();
+    create_bucket(&c, bucket).await?;
+
+    let (src_key, key) = ("source.txt", "sample.txt");
+    c.put_object()
+        .bucket(bucket)
+        .key(src_key)
+        .body(ByteStream::from_static(b"0123456789"))
+        .send()
+        .await?;
+
+    let upload_id = {
+        let ans = c.create_multipart_upload().bucket(bucket).key(key).send().await?;
+        ans.upload_id.unwrap()
+    };
+    let upload_id = upload_id.as_str();
+
+    let copy_range = |range: &'static str| {
+        c.upload_part_copy()
+            .bucket(bucket)
+            .key(key)
+            .copy_source(format!("{bucket}/{src_key}"))
+            .copy_source_range(range)
+            .upload_id(upload_id)
+            .part_number(1)
+            .send()
+    };
+
+    // the range must be `bytes=first-last` and lie inside the source
+    for range in [
+        "bytes=0-10",
+        "bytes=10-12",
+        "bytes=5-",
+        "bytes=-3",
+        "bytes=7-2",
+        "bytes=+2-5",
+        "bytes=2-5-7",
+        "2-5",
+    ] {
+        let err = copy_range(range).await.unwrap_err();
+        assert_eq!(err.code(), Some("InvalidArgument"), "{range}");
+    }
+    {
+        let ans = c.list_parts().bucket(bucket).key(key).upload_id(upload_id).send().await?;
+        assert!(ans.parts().is_empty());
+    }
+
+    copy_range("bytes=2-5").await?;
+
+    {
+        let part = CompletedPart::builder().part_number(1).build();
+        let upload = CompletedMultipartUpload::builder().parts(part).build();
+        c.complete_multipart_upload()
+            .bucket(bucket)
+            .key(key)
+            .multipart_upload(upload)
+            .upload_id(upload_id)
+            .send()
+            .await?;
+
+        let ans = c.get_object().bucket(bucket).key(key).send().await?;
+        let body = ans.body.collect().await?.into_bytes();
+        assert_eq!(body.as_ref(), b"2345");
+    }
+
+    {
+        delete_object(&c, bucket, key).await?;
+        delete_object(&c, bucket, src_key).await?;
+        delete_bucket(&c, bucket).await?;
+    }
+
+    Ok(())
+}
